@@ -2,13 +2,13 @@
 package c04
 
 import (
-	"time"
 	"context"
 	"fmt"
 	"os"
 	"path/filepath"
 	"strings"
 	"testing"
+	"time"
 
 	"github.com/theparanoids/ysshra/gensign"
 	"github.com/theparanoids/ysshra/gensign/regular"
@@ -26,6 +26,8 @@ type Scenario struct {
 	Stale  int
 	// RejectFirst puts a rejecting handler in front (its Name is used in the log).
 	RejectFirst bool
+	// RejectKind: the kind of error the handler in front rejects with (see vh.FakeHandler.RejectKind)
+	RejectKind string
 	// Ctx: "" = context.Background | cancel = a cancellable context (what cmd/gensign passes) | timeout = a 60 s deadline
 	Ctx string
 	// Window: the validity window the CA stamps (see vh.CABehaviour.Window)
@@ -33,7 +35,7 @@ type Scenario struct {
 }
 
 type Fault struct {
-	// Where: none | agent | ca | handler
+	// Where: none | agent | ca | handler | generate (the harness handler's Generate fails: Kind as vh.FakeHandler.GenErrKind)
 	Where string
 	Index int
 	Kind  string // agent: fail|close ; ca: error|panic ; handler: name|authenticate|generate|csrs|addcerts
@@ -92,6 +94,9 @@ func runOnce(s Scenario, f Fault) (res runResult, infra error) {
 		if f.Kind == "panic" {
 			b = vh.CABehaviour{Panic: true}
 		}
+		if strings.HasPrefix(f.Kind, "error-") {
+			b.ErrKind = strings.TrimPrefix(f.Kind, "error-")
+		}
 		if f.Kind == "error+certs" {
 			b.ErrWithCerts, b.NCerts = true, s.NCerts
 		}
@@ -118,11 +123,14 @@ func runOnce(s Scenario, f Fault) (res runResult, infra error) {
 		if f.Where == "handler" && f.Index == 0 {
 			fh.PanicIn = f.Kind
 		}
+		if f.Where == "generate" {
+			fh.GenErr, fh.GenErrKind = true, f.Kind
+		}
 		h = fh
 	}
 	handlers := []gensign.Handler{h}
 	if s.RejectFirst {
-		rej := &vh.FakeHandler{ID: "rej", Accept: false, Log: hlog}
+		rej := &vh.FakeHandler{ID: "rej", Accept: false, Log: hlog, RejectKind: s.RejectKind}
 		if f.Where == "handler" && f.Kind == "name" {
 			rej.PanicIn = "name"
 		}
@@ -241,13 +249,19 @@ func exec(s Scenario) (vh.Outcome, error) {
 		faults = append(faults, Fault{"agent", i, "fail"}, Fault{"agent", i, "close"})
 	}
 	for j := 0; j < m; j++ {
-		faults = append(faults, Fault{"ca", j, "error"}, Fault{"ca", j, "panic"}, Fault{"ca", j, "error+certs"}, Fault{"ca", j, "wrongkey"})
+		faults = append(faults, Fault{"ca", j, "error"}, Fault{"ca", j, "panic"}, Fault{"ca", j, "error+certs"}, Fault{"ca", j, "wrongkey"}, Fault{"ca", j, "error-unknown"}, Fault{"ca", j, "error-unnamed"})
 	}
 	for _, k := range []string{"name", "authenticate", "generate", "csrs", "addcerts"} {
 		faults = append(faults, Fault{"handler", 0, k})
 	}
 	if s.RejectFirst {
 		faults = append(faults, Fault{"handler", 1, "authenticate"})
+	}
+	if !s.Real {
+		// request generation fails in every way a handler can fail it
+		for _, k := range []string{"", "nameless", "nameless-wrapped", "nokeys", "emptykeys"} {
+			faults = append(faults, Fault{"generate", 0, k})
+		}
 	}
 	effective := 0
 	for _, f := range faults {
@@ -295,6 +309,11 @@ func exec(s Scenario) (vh.Outcome, error) {
 			if len(res.caCalls) != f.Index+1 {
 				return out, vh.Errf("%s: the signer received %d calls; the run must stop at the failed call %d", fd, len(res.caCalls), f.Index)
 			}
+		case "generate":
+			allowed = []string{"HandlerGenCSRErr"}
+			if len(res.caCalls) != 0 {
+				return out, vh.Errf("%s: request generation failed, yet the CA received %d request(s)", fd, len(res.caCalls))
+			}
 		case "handler":
 			if f.Kind == "name" && !s.RejectFirst {
 				// Name is only used for logging: whether it runs at all is not part of the property
@@ -318,12 +337,12 @@ func exec(s Scenario) (vh.Outcome, error) {
 	return out, nil
 }
 
-const rule = "scenarios: the real regular handler, or a harness handler producing 1..3 agent keys x 1..3 requests through the repository's AgentKey, CA returning 1..3 certificates per request (validity window as requested / without expiry / until 2^63 s / stamped by a clock 90 s ahead), 0..2 stale labelled certificates in the agent, optionally a rejecting handler in front, run under context.Background, a cancellable context (what cmd/gensign passes) or a deadline context (each case is journaled first: a fault that kills the process instead of coming back as an error is reported with its scenario). Per scenario a fault-free run fixes the number of agent operations n and CA calls m; then EVERY (operation index 0..n-1) x {failure reply, connection closed}, every CA call x {error, panic, error handed back together with certificates, certificates issued for another key} and a panic in each of Name / Authenticate / Generate / CSRs / AddCertsToAgent of the authenticating handler, plus a panic in Authenticate of the handler in front of it, is executed in a fresh world (exhaustive per scenario; scenarios random). Oracle: challenge fault => AllAuthFailed; agent fault before the first CA call => a typed generation error; CA error => SignerSignErr and no further CA call; list / remove / add-certificate fault => AgentOpCertErr; any panic => Panic; always a *gensign.Error, the process survives; fault-free: nil, CA calls = all requests in order, every returned certificate in the agent; always: certificates added are a subset of those the CA returned. Non-trivial: at least one injected fault was reached and judged."
+const rule = "scenarios: the real regular handler, or a harness handler producing 1..3 agent keys x 1..3 requests through the repository's AgentKey, CA returning 1..3 certificates per request (validity window as requested / without expiry / until 2^63 s / stamped by a clock 90 s ahead), 0..2 stale labelled certificates in the agent, optionally a rejecting handler in front (rejecting with an error of any kind, incl. the unknown kind and kinds that have no name), run under context.Background, a cancellable context (what cmd/gensign passes) or a deadline context (each case is journaled first: a fault that kills the process instead of coming back as an error is reported with its scenario). Per scenario a fault-free run fixes the number of agent operations n and CA calls m; then EVERY (operation index 0..n-1) x {failure reply, connection closed}, every CA call x {error (plain, or typed with the unknown / an unnamed kind), panic, error handed back together with certificates, certificates issued for another key} and a panic in each of Name / Authenticate / Generate / CSRs / AddCertsToAgent of the authenticating handler, plus a panic in Authenticate of the handler in front of it, plus - for the harness handler - every way Generate can fail (typed error with / without handler name, wrapped, no keys returned as nil or as an empty list) is executed in a fresh world (exhaustive per scenario; scenarios random). Oracle: challenge fault => AllAuthFailed; agent fault before the first CA call => a typed generation error; Generate failing or returning no key => the CSR-generation kind and no CA call; CA error => SignerSignErr and no further CA call; list / remove / add-certificate fault => AgentOpCertErr; any panic => Panic; always a *gensign.Error, the process survives; fault-free: nil, CA calls = all requests in order, every returned certificate in the agent; always: certificates added are a subset of those the CA returned. Non-trivial: at least one injected fault was reached and judged."
 
 func TestC04Faults(t *testing.T) {
 	vh.Run(t, vh.Spec[Scenario]{Property: "C04", Name: "TestC04Faults", Rule: rule, Journal: true,
 		Gen: func(t *rapid.T) Scenario {
-			s := Scenario{Real: rapid.Bool().Draw(t, "real"), NCerts: rapid.IntRange(1, 3).Draw(t, "ncerts"), Stale: rapid.IntRange(0, 2).Draw(t, "stale"), RejectFirst: rapid.Bool().Draw(t, "rejectFirst"),
+			s := Scenario{Real: rapid.Bool().Draw(t, "real"), NCerts: rapid.IntRange(1, 3).Draw(t, "ncerts"), Stale: rapid.IntRange(0, 2).Draw(t, "stale"), RejectFirst: rapid.Bool().Draw(t, "rejectFirst"), RejectKind: rapid.SampledFrom([]string{"", "", "disabled", "unknown", "unnamed", "zero", "untyped"}).Draw(t, "rejectKind"),
 				Ctx:    rapid.SampledFrom([]string{"", "cancel", "cancel", "timeout"}).Draw(t, "ctx"),
 				Window: rapid.SampledFrom([]string{"", "", "forever", "ahead", "huge"}).Draw(t, "window")}
 			if !s.Real {
